@@ -321,6 +321,14 @@ pub fn run(cli: Cli) -> ! {
         rep.set("traces_validated_against_impl", json!(1));
         rep.finish();
     }
+    core(&rep, cli.tier.thorough());
+    rep.finish()
+}
+
+/// The sweep over the virtual transport (everything but the replay of one case). netsim's C01 runs it and adds
+/// whole connections whose authentication service is the real MojangAdapter talking to a mock session server.
+pub fn core(rep: &Report, thorough: bool) {
+    let stale = stale_token();
     // Two connections in one process, one after the other: the first (identity "Earlier_One") ends badly with a
     // clientbound frame stuck in the transport; the fresh connection that follows must not be sent anything that
     // was produced for the first (sequential, before the parallel sweep).
@@ -383,7 +391,7 @@ pub fn run(cli: Cli) -> ! {
             }
         }
     }
-    let all = specs(cli.tier.thorough());
+    let all = specs(thorough);
     let distinct: Mutex<HashSet<String>> = Mutex::new(HashSet::new());
     let admitted = AtomicU64::new(0);
     let refused = AtomicU64::new(0);
@@ -428,5 +436,4 @@ pub fn run(cli: Cli) -> ! {
     rep.sample(json!({"spec": Spec { intent: "login".into(), enc: "token-prefix-1".into(), verdict: "claim".into(), routing: true, claim: "ascii".into(), transport: "plain".into() }, "expect": "nothing granted"}));
     rep.assume("RSA, AES, HMAC crates are trusted primitives (the client side uses the rsa crate to encrypt; CFB8 and HMAC are re-implemented)");
     rep.assume("'every client byte stream' is covered as every script over the stated alphabet; arbitrary byte noise is C04's subject");
-    rep.finish()
 }
